@@ -17,7 +17,8 @@ func init() { register("C09", checkC09) }
 func genC09(t *rapid.T) *Case {
 	p := carrierProfile()
 	p.CommaURLs = true
-	p.Inline = append(append([]wc{}, p.Inline...), wc{"joined", 2})
+	p.Inline = append(append([]wc{}, p.Inline...), wc{"joined", 2}, wc{"escaped", 3})
+	p.EscapedText = true
 	mode := rapid.IntRange(0, 2).Draw(t, "c09mode")
 	if mode == 0 {
 		// word-count sub-domain: no title, no tables, no figures
